@@ -26,7 +26,7 @@ From Coq Require Import String.
 From Coq Require Import List ZArith Bool Permutation Lia.
 From SV Require Import Base.Base Fmt.VBits Fmt.VExpr Fmt.VDoc Fmt.VTop Fmt.VElab Fmt.VSpec Fmt.VSem
   Proofs.VerilogLists Proofs.VerilogSlice Proofs.VerilogGrow Proofs.VerilogPort Proofs.VerilogAssign Proofs.VerilogTop
-  Proofs.VElabBase Proofs.VElabInv Proofs.VElabWf Proofs.VElabExpr Proofs.VElabConn Proofs.VElabAssign Proofs.VElabPorts Proofs.VElabNets Proofs.VElabTop Proofs.VElabStable.
+  Proofs.VElabBase Proofs.VElabInv Proofs.VElabWf Proofs.VElabExpr Proofs.VElabConn Proofs.VElabAssign Proofs.VElabPorts Proofs.VElabNets Proofs.VElabTop Proofs.VElabStable Proofs.VElabVis.
 Import ListNotations.
 Local Close Scope string_scope.
 Open Scope Z_scope.
@@ -319,6 +319,23 @@ Proof.
          (EPort (LName (S "a")) 1, (S "a", 1)); (EPort (LName (S "a")) 2, (S "a", 2)); (EPort (LName (S "a")) 3, (S "a", 3));
          (EPort (LName (S "y")) 1, (S "y", 1))]). vm_compute. reflexivity.
     + split; [vm_compute; reflexivity|]. eexists. split; vm_compute; reflexivity.
+Qed.
+
+(* [visible] is a reachable-state invariant: in the state the reader arrives at for ANY document that it accepts (no
+   typing hypothesis), every connection of every definition shows in the netlist value - its wire is a labelled net
+   bit, its pin is a bit of a port of the module / of the definition the instance references, or a pin of an assign.
+   (Proofs/VElabVis.v: the structural invariant VInv - every connection joins an existing wire to an existing pin,
+   every deferred positional map names an existing instance of an existing definition - is preserved by every header
+   entry, every item of a module body, the module boundaries, add_blackbox_definitions and the deferred maps.) *)
+Theorem C06_visible_reachable : forall (doc : vdoc) (s : estate) (k : nat), run doc = Ok s -> visible s (get_def k s).
+Proof. exact run_visible. Qed.
+Print Assumptions C06_visible_reachable.
+
+(* hence the hypothesis [visible] of C06_full_instance_nets is met by the final state of every run *)
+Example C06_visible_reachable_witness : visible ex_state (get_def 0 ex_state) /\ ed_conn (get_def 0 ex_state) <> [].
+Proof.
+  split; [|vm_compute; discriminate].
+  apply (run_visible ex_doc2). unfold ex_state. destruct (run ex_doc2) as [s|e] eqn:E; [reflexivity|]. vm_compute in E. discriminate.
 Qed.
 
 (* one position of a positional port map (processed when the whole file has been read): the same, on the port at that
